@@ -87,19 +87,32 @@ class _Parser(barectf_config_parse_common._Parser):
         ctf_keywords = {
             'align',
             'callsite',
+            'const',
+            'char',
             'clock',
+            'double',
             'enum',
             'env',
             'event',
             'floating_point',
+            'float',
             'integer',
+            'int',
+            'long',
+            'short',
+            'signed',
             'stream',
             'string',
             'struct',
             'trace',
             'typealias',
             'typedef',
+            'unsigned',
             'variant',
+            'void',
+            '_Bool',
+            '_Complex',
+            '_Imaginary',
         }
 
         if iden in ctf_keywords:
